@@ -101,6 +101,11 @@ class C04(_C03.C03):
                     yield ("spec.contains", args)
                     out += 1
 
+    def judge(self, op, args, real, model, driver):
+        # C04 is a set of laws, not a refinement: a model/implementation disagreement is not by itself a violation of
+        # it; the runner then evaluates the laws with a four-fold budget (run.py) to look for a failing tuple
+        return None
+
     def gen_laws(self, rng, n):
         k = 0
         while k < n:
